@@ -90,7 +90,7 @@ def _run_batch(modname, specs, tmpdir, bi, timeout, extra_env=None):
 def run_check(mod, tier, seed, replay=None, budget_s=None):
     prop = mod.PROPERTY
     t0 = time.time()
-    os.makedirs(os.path.join(VERIF_DIR, "evidence"), exist_ok=True)
+    os.makedirs(_evidence_dir(), exist_ok=True)
     if replay:
         return _replay(mod, replay)
     specs = mod.cases(tier, seed)
@@ -180,7 +180,7 @@ def _conclude(mod, tier, seed, specs, results, problems, stopped_by, t0):
                 viol_unknown.append((r, v))
     # replay files for unknown violations (first 10) -------------------------------------------------------------
     replay_paths = []
-    rdir = os.path.join(VERIF_DIR, "replays", prop)
+    rdir = os.path.join(os.environ.get("VERIF_REPLAY_DIR") or os.path.join(VERIF_DIR, "replays"), prop)
     if viol_unknown:
         os.makedirs(rdir, exist_ok=True)
     seen_keys = {}
@@ -310,6 +310,11 @@ def _accepts_inputs(mod):
     return "inputs" in inspect.signature(mod.run_case).parameters
 
 
+def _evidence_dir():
+    # mutation / seeded-change evaluation points this elsewhere so that /verif/evidence only ever holds runs on /repo
+    return os.environ.get("VERIF_EVIDENCE_DIR") or os.path.join(VERIF_DIR, "evidence")
+
+
 def _repo_head(repo):
     try:
         h = subprocess.run(["git", "-C", repo, "rev-parse", "--short", "HEAD"], stdout=subprocess.PIPE,
@@ -338,7 +343,7 @@ def _versions():
 
 
 def _write_evidence(prop, ev):
-    path = os.path.join(VERIF_DIR, "evidence", f"{prop}.json")
+    path = os.path.join(_evidence_dir(), f"{prop}.json")
     try:
         import jsonschema
 
